@@ -32,6 +32,14 @@ def run(tier, seed, replay=None):
         return v.finish("exploration", {"evaluations": max(res["evaluations"], 1), "distinct_nontrivial": max(res["distinct"], 2), "rule": "replay of " + replay,
                                         "samples": [{"replay": replay}], "counters": res["counters"]}, assumptions=["replay run"])
     rs = vlib.tlc_must_pass(SPEC, "ControlSession_sess_quick.cfg" if quick else "ControlSession_sess_full.cfg", wd, workers=8, timeout=1500)
+    # a JSON line of any shape followed by a well-formed line on the same session: per-line independence is the modelled rule;
+    # a dispatcher that keeps the decoded request across lines must be refuted by the session model
+    rm = vlib.tlc_must_pass(SPEC, "ControlSession_mixed.cfg", wd, workers=1, timeout=600)
+    mixed = os.path.join(rm.dir, "mixed.ndjson")
+    nmixed = sum(1 for _ in open(mixed))
+    rst = vlib.tlc(SPEC, "ControlSession_sess_stale.cfg", wd, workers=4, timeout=600)
+    if rst.violated != "LineIndependence":
+        raise vlib.Inconclusive("the model with request state kept across lines did not violate LineIndependence: exit %s\n%s" % (rst.exit, rst.output[-1200:]))
     # the lock sub-model with the locking as found must exhibit the deadlock (a lead, replayed below as the disk-only classes)
     ra = vlib.tlc(SPEC, "ControlSession_lock_asis.cfg", wd, workers=1, timeout=600)
     if ra.violated != "NoDeadlock":
@@ -46,9 +54,9 @@ def run(tier, seed, replay=None):
     if nlines != rl.distinct:
         raise vlib.Inconclusive("line table has %d entries but TLC found %d states" % (nlines, rl.distinct))
     vctl = vlib.build_harness("vctl")
-    args = ["c08", "-lines", lines, "-sessions", sessions, "-receptor", vctl_common.receptor_copy(wd), "-work", wd, "-seed", str(seed)]
+    args = ["c08", "-lines", lines, "-sessions", sessions, "-mixed", mixed, "-receptor", vctl_common.receptor_copy(wd), "-work", wd, "-seed", str(seed)]
     if quick:
-        args += ["-instances", "2", "-pairmode", "split", "-budget", "45s"]
+        args += ["-instances", "2", "-pairmode", "split", "-budget", "35s", "-maxmixed", "200"]
     else:
         args += ["-instances", "6", "-pairmode", "both", "-allwedges", "-budget", "800s"]
     if replay:
@@ -59,21 +67,28 @@ def run(tier, seed, replay=None):
     if res.get("inconclusive") and not v.violations:
         raise vlib.Inconclusive("; ".join(res["inconclusive"]))
     c = res["counters"]
+    if not replay and not v.violations and c.get("mixed_plain_after_json_ok", 0) == 0:
+        raise vlib.Inconclusive("no mixed session (plain line after a JSON line) was verified: %s" % c)
     if not replay and c.get("line_classes", 0) != nlines and not v.violations:
         raise vlib.Inconclusive("harness handled %s of %d line classes" % (c.get("line_classes"), nlines))
     cov = {
         "evaluations": res["evaluations"], "distinct_nontrivial": res["distinct"],
         "rule": "class-exhaustive, byte-sampled: every one of the %d line classes of ControlSession.tla (every built-in command x every parameter "
                 "present/absent x every JSON type, plain forms with 0..n arguments, framing/EOF/abort/64 KiB/binary classes, unit ids existing/unknown/"
-                "disk-only/statusless/path characters) is sent as several seeded concrete byte strings on fresh Unix and TCP sessions; then every "
+                "disk-only/statusless/path characters) is sent as several seeded concrete byte strings on fresh Unix and TCP sessions; then mixed sessions "
+                "(every line class that decodes into a JSON object, valid command or not, followed on the same session by a well-formed plain or JSON command "
+                "whose answer - class and content - must be what a fresh session gets: %d of %d TLC-enumerated carrier x follower pairs); then every "
                 "TLC-enumerated pair of sessions (%d pairs of <= %s x <= 1 lines over 14 line kinds) is replayed alternating and/or truly concurrent, "
-                "within the time budget. distinct = distinct (class, concrete bytes) inputs + distinct (session pair, mode)" % (nlines, npairs, "2" if quick else "3"),
+                "within the time budget. distinct = distinct (class, concrete bytes) inputs + distinct mixed sessions + distinct (session pair, mode)" % (nlines, c.get("mixed_sessions", 0), nmixed, npairs, "2" if quick else "3"),
         "samples": (res.get("samples") or [{"note": "run stopped before sampling"}])[:10], "exhaustive": False,
         "line_classes": nlines, "session_pairs_enumerated": npairs, "session_pairs_replayed": c.get("pair_vectors", 0),
-        "states": rl.distinct + rs.distinct, "transitions": rl.generated + rs.generated,
+        "states": rl.distinct + rs.distinct + rm.distinct, "transitions": rl.generated + rs.generated + rm.generated,
+        "mixed_sessions_enumerated": nmixed, "mixed_sessions_replayed": c.get("mixed_sessions", 0),
         "counters": c, "witnesses": wit, "notes": res.get("notes", [])[:40],
         "tlc": [{"cfg": "ControlSession_lines.cfg", "generated": rl.generated, "distinct": rl.distinct, "wall_s": round(rl.wall, 1)},
                 {"cfg": "sessions", "generated": rs.generated, "distinct": rs.distinct, "wall_s": round(rs.wall, 1)},
+                {"cfg": "ControlSession_mixed.cfg", "generated": rm.generated, "distinct": rm.distinct},
+                {"cfg": "ControlSession_sess_stale.cfg", "violated": rst.violated, "note": "lead: a dispatcher that keeps the decoded request across lines breaks LineIndependence; replayed as the mixed sessions"},
                 {"cfg": "ControlSession_lock_asis.cfg", "violated": ra.violated, "note": "lead: the as-found findUnit/scanForUnit locking deadlocks; replayed as the disk-only unit classes"}],
     }
     return v.finish("exploration", cov, assumptions=[
